@@ -30,7 +30,12 @@ def harness_lines(args, bin_path=None):
                                   stdout=subprocess.PIPE, stderr=subprocess.PIPE, text=True) for k in range(n)]
         rc, lines, errs = 0, [], []
         for p in procs:
-            out, err = p.communicate()
+            try:
+                out, err = p.communicate(timeout=3600)
+            except subprocess.TimeoutExpired:
+                for q in procs:
+                    q.kill()
+                raise RuntimeError("harness shard did not finish within an hour: " + " ".join(args))
             rc = rc or p.returncode
             errs.append(err)
             ls = out.split("\n")
